@@ -14,7 +14,8 @@ TIERS = {
     "quick": {"runs": 3000, "max_wall": 240, "minimise_s": 25, "chunk": 50},
     "thorough": {"runs": 100000, "max_wall": 3000, "minimise_s": 60, "chunk": 200},
 }
-FAULT_KINDS = ["save tick position relative to the last change", "clean stop/restart", "stop() at the instant a scheduled save starts (pre-emptive schedule)", "persistence directory not writable during one scheduled save", "transient I/O error in one scheduled save", "raising event callback", "no event callback", "line delivered while stop() is in progress"]
+FAULT_KINDS = ["save tick position relative to the last change", "clean stop/restart", "stop() at the instant a scheduled save starts (pre-emptive schedule)", "persistence directory not writable during one scheduled save", "transient I/O error in one scheduled save", "raising event callback", "no event callback", "line delivered while stop() is in progress",
+               "link down and re-dial pending when stop() is called", "the scheduled save that stop() waits for fails (threaded)"]
 REAL, STUBS, ASSUMPTIONS = netcheck.REAL, netcheck.STUBS, netcheck.ASSUMPTIONS
 REQUIRED_PROBES = ["restarts_with_persistence", "stop_after_unsaved_change", "saves_completed"]
 WEIGHTS = {"advance": 14, "restart": 3, "present_node": 8, "present_child": 9, "value": 12, "battery": 6, "sketch": 8, "heartbeat": 6,
